@@ -23,6 +23,12 @@ package bigbuff
 //@   loop 0 invariant low : lowest <= size && all(j, 0, rangeindex+1, offsets[j] > 0 ==> lowest <= offsets[j])
 //@   loop 0 invariant att : lowest == size || some(j, 0, rangeindex+1, offsets[j] > 0 && lowest == offsets[j])
 
+//@ # the constructor returns exactly the cleaner closure below over exactly the three values given
+//@ func FixedBufferCleaner
+//@   props C03 C04 C01 C02
+//@   inline
+//@   ensures cleaner : closurename(ret) == "FixedBufferCleaner$1" && captured(ret, max) == max && captured(ret, target) == target && captured(ret, callback) == callback
+
 //@ func FixedBufferCleaner$1
 //@   props C03 C04 C01 C02
 //@   modular
@@ -960,6 +966,41 @@ package bigbuff
 // Exclusive options and API wrappers (C09/C10): each option stores exactly its value; ExclusiveValue resolves
 // exactly once with exactly what the value function returned; the wrappers forward to CallWithOptions / call.
 
+//@ # the option constructors: each returns exactly its own setter closure over exactly the value given (callers that build
+//@ # options inline them; users of CallWithOptions rely on this stand-alone)
+//@ func ExclusiveKey
+//@   props C09 C10
+//@   inline
+//@   ensures option : closurename(ret) == "ExclusiveKey$1" && captured(ret, value) == value
+
+//@ func ExclusiveWork
+//@   props C09 C10
+//@   inline
+//@   ensures option : closurename(ret) == "ExclusiveWork$1" && captured(ret, value) == value
+
+//@ func ExclusiveWait
+//@   props C09 C10
+//@   inline
+//@   ensures option : closurename(ret) == "ExclusiveWait$1" && captured(ret, value) == value
+
+//@ func ExclusiveStart
+//@   props C10 C09
+//@   inline
+//@   ensures option : closurename(ret) == "ExclusiveStart$1" && captured(ret, value) == value
+
+//@ func ExclusiveWrapper
+//@   props C09 C10
+//@   inline
+//@   ensures option : closurename(ret) == "ExclusiveWrapper$1" && captured(ret, value) == value
+
+//@ func ExclusiveValue
+//@   props C10 C09
+//@   inline
+//@   # a nil value function configures no work at all; otherwise the work is the forwarding closure over exactly that function
+//@   ensures option : closurename(ret) == "ExclusiveWork$1"
+//@   ensures nowork : value == nil ==> captured(ret, value) == nil
+//@   ensures forward : value != nil ==> closurename(captured(ret, value)) == "ExclusiveValue$1" && captured(captured(ret, value), value) == value
+
 //@ func ExclusiveKey$1
 //@   props C09 C10
 //@   modular
@@ -1278,6 +1319,12 @@ package bigbuff
 //@ func (Callable).Call
 //@   maypanic
 
+//@ func CallArgs
+//@   props C19
+//@   inline
+//@   # the option is exactly the closure below over exactly the value given
+//@   ensures option : closurename(ret) == "CallArgs$1" && len(captured(ret, args)) == len(args) && all(i, 0, len(args), captured(ret, args)[i] == args[i])
+
 //@ func CallArgs$1
 //@   props C19
 //@   modular
@@ -1289,6 +1336,12 @@ package bigbuff
 //@   at-call reflect.FuncOf#0 shape : len(arg0) == 0 && arg1 == ilast("resolveArgs", 0) && !arg2
 //@   at-call resolveArgs#0 types : arg0 == config.this && arg1 == ilast("typesArgs", 0)
 //@   at-call typesArgs#0 given : arg0 == args
+
+//@ func CallResults
+//@   props C19
+//@   inline
+//@   # the option is exactly the closure below over exactly the value given
+//@   ensures option : closurename(ret) == "CallResults$1" && len(captured(ret, results)) == len(results) && all(i, 0, len(results), captured(ret, results)[i] == results[i])
 
 //@ func CallResults$1
 //@   props C19
@@ -1302,6 +1355,12 @@ package bigbuff
 //@   ensures untouched : icalls("rvset") == 0
 //@   ensures installed : ret == nil ==> config.results != nil && config.args == old(config.args)
 //@   at-call reflect.FuncOf#0 shape : len(arg1) == 0 && !arg2 && len(arg0) == rt_numout(config.this) && all(j, 0, len(arg0), arg0[j] == rt_out(config.this, j))
+
+//@ func CallResultsSlice
+//@   props C19
+//@   inline
+//@   # the option is exactly the closure below over exactly the value given
+//@   ensures option : closurename(ret) == "CallResultsSlice$1" && captured(ret, target) == target
 
 //@ func CallResultsSlice$1
 //@   props C19
@@ -1330,11 +1389,23 @@ package bigbuff
 //@   ensures appended : len(args) != 0 ==> icalls("reflect.Append") == 1 && icalls("rvset") == 1
 //@   ensures idle : len(args) == 0 ==> icalls("reflect.Append") == 0 && icalls("rvset") == 0
 
+//@ func CallArgsRaw
+//@   props C19
+//@   inline
+//@   # the option is exactly the closure below over exactly the value given
+//@   ensures option : closurename(ret) == "CallArgsRaw$1" && captured(ret, args) == args
+
 //@ func CallArgsRaw$1
 //@   props C19
 //@   modular
 //@   requires cfg : config != nil
 //@   ensures raw : ret == nil && config.args == args && config.results == old(config.results)
+
+//@ func CallResultsRaw
+//@   props C19
+//@   inline
+//@   # the option is exactly the closure below over exactly the value given
+//@   ensures option : closurename(ret) == "CallResultsRaw$1" && captured(ret, results) == results
 
 //@ func CallResultsRaw$1
 //@   props C19
